@@ -782,11 +782,11 @@ theorem Sel2Coll.out {root : Val} {rl : Bool} {x : PyM (Val × Res)} {vals : Lis
       simp only [hv, Bool.false_eq_true, if_false, Option.some.injEq] at hx
       rw [← hx]; exact h2 (by simp [h1, hv])
 
-/-- `[k op v] :: rest` on the non-empty list at `p` -/
+/-- `[k op v] :: rest` on the list at `p` -/
 theorem sel2_cond_list (root : Val) (rl entry : Bool) (p : Pos) (k op T : Str) (v : CondVal) (lc : Cls) (rs : List Val)
     (rest : List Str) (o : Val → Option Val) (F : Nat)
     (hp : PlainPos p) (hk : PlainKey k) (hkt : k ≠ sTextFn)
-    (hq : getAt root p = some (.list lc rs)) (hrs : ∀ r ∈ rs, isDict r = true) (hne : rs ≠ [])
+    (hq : getAt root p = some (.list lc rs)) (hrs : ∀ r ∈ rs, isDict r = true)
     (hs1 : splitNameIndex T = .ok ([], .cond k op v))
     (hs2 : splitNameIndex (bracket (sTextFn ++ op ++ condValStr v)) = .ok ([], .cond sTextFn op v)) (hop : OpSpell op op)
     (hg : ∀ c kvs' kv, Val.dict c kvs' ∈ rs → lookup k kvs' = some kv → textGuard kv v = false) (hrest : rest ≠ [])
@@ -795,7 +795,7 @@ theorem sel2_cond_list (root : Val) (rl entry : Bool) (p : Pos) (k op T : Str) (
     (fuel : Nat) (hfuel : fuel ≥ F + 2 * p.length + rs.length + 9) :
     Sel2Coll root rl (findD fuel root [] false entry (T :: rest) (.at p) rl ('/' :: renderPos p)) (sel2Sel k op v o rs) := by
   obtain ⟨g, rfl⟩ : ∃ g, fuel = g + 2 := ⟨fuel - 2, by omega⟩
-  rw [find_cond_on_list (g + 1) root entry rl p _ T k op v rest lc rs hq hne hs1 hkt]
+  rw [find_cond_on_list (g + 1) root entry rl p _ T k op v rest lc rs hq hs1 hkt]
   rw [find_star_step g root false rl p _ _ _ lc rs hq split_star]
   apply sel2_pred_loop root rl p k op v lc rs (T :: rest) _ o (F + 2 * p.length + 6) (by simp) hq hrs _ g (by omega)
   intro j c kvs' hj fu hfu
@@ -842,12 +842,12 @@ theorem sel2_tok_text_quoted (op v : Str) (hop : OpSpell op op) (hv : PlainLit v
   have := split_cond [] sTextFn op op _ v (Or.inl rfl) condKey_text hop (.sq v) hv
   simpa [condValStr, List.append_assoc] using this
 
-/-- `name[k op v] :: rest` in the dict at `q` whose `name` is a non-empty list of records -/
+/-- `name[k op v] :: rest` in the dict at `q` whose `name` is a list of records -/
 theorem sel2_keycond_list (root : Val) (rl entry : Bool) (q : Pos) (name k opx op vq v : Str) (cls : Cls)
     (kvs : List (Str × Val)) (lc : Cls) (rs : List Val) (rest : List Str) (o : Val → Option Val) (F : Nat)
     (hq : PlainPos q) (hname : PlainKey name) (hk : FieldKey k) (hop : OpSpell opx op) (hlit : LitSpell vq v) (hv : PlainLit v)
     (hqv : getAt root q = some (.dict cls kvs)) (hl : lookup name kvs = some (.list lc rs))
-    (hrs : ∀ r ∈ rs, isDict r = true) (hne : rs ≠ [])
+    (hrs : ∀ r ∈ rs, isDict r = true)
     (hg : ∀ c kvs' kv, Val.dict c kvs' ∈ rs → lookup k kvs' = some kv → textGuard kv (.str v) = false) (hrest : rest ≠ [])
     (hcont : ∀ (j : Nat) (c : Cls) (kvs' : List (Str × Val)), rs[j]? = some (.dict c kvs') → ∀ fu ≥ F, Sel2Out root
       (findD fu root [] false false rest (.at (q ++ [.key name] ++ [.idx j])) rl ('/' :: renderPos (q ++ [.key name] ++ [.idx j])))
@@ -862,7 +862,7 @@ theorem sel2_keycond_list (root : Val) (rl entry : Bool) (q : Pos) (name k opx o
   rw [find_keycond_step g root entry rl q _ _ name k op (.str v) rest cls kvs _ hqv hs0 hname.ne hname.notUp
     hname.keyTok.notStar hl, sel2_found_key]
   exact sel2_cond_list root rl false (q ++ [.key name]) k op _ (.str v) lc rs rest o F
-    (sel2_plainPos_of hq (by exact (⟨hname, trivial⟩ : PlainPos [.key name]))) hk.plain hk.notText hq1 hrs hne
+    (sel2_plainPos_of hq (by exact (⟨hname, trivial⟩ : PlainPos [.key name]))) hk.plain hk.notText hq1 hrs
     (sel2_tok_reemit k op v hk hopc hv) (sel2_tok_text_bare op v hopc hv) hopc hg hrest hcont g (by simp; omega)
 
 /-- the continuation `f`: the field of the record -/
@@ -890,65 +890,51 @@ theorem sel2Sel_fieldOf (k f op : Str) (v : CondVal) (rs : List Val) :
 
 theorem sel2_slash_render (p : Pos) : slash ++ renderPos p = '/' :: renderPos p := rfl
 
-/-- bracket form, `P` ending in a key, tree level (either the selection or — empty list — `IndexError`) -/
+/-- bracket form, `P` ending in a key, tree level -/
 theorem sel2_cond_find_key (root : Val) (rl : Bool) (p : Pos) (name k f opx op vq v : Str) (lc : Cls) (rs : List Val)
     (hp : PlainPos p) (hname : PlainKey name) (hk : FieldKey k) (hf : PlainKey f) (hop : OpSpell opx op)
     (hlit : LitSpell vq v) (hv : PlainLit v)
     (hget : getAt root (p ++ [.key name]) = some (.list lc rs)) (hrs : ∀ r ∈ rs, isDict r = true)
     (hg : ∀ c kvs' kv, Val.dict c kvs' ∈ rs → lookup k kvs' = some kv → textGuard kv (.str v) = false)
     (fuel : Nat) (hfuel : fuel ≥ 4 * p.length + rs.length + 14) :
-    let x := findD fuel root [] false true (mergedToks p ++ [name ++ bracket (k ++ opx ++ vq), f]) (.at []) rl slash
-    (rs ≠ [] → Sel2Coll root rl x (somes (rs.map (condOutcome k f op (.str v))))) ∧ (rs = [] → x = .error .IndexError) := by
-  intro x
+    Sel2Coll root rl
+      (findD fuel root [] false true (mergedToks p ++ [name ++ bracket (k ++ opx ++ vq), f]) (.at []) rl slash)
+      (somes (rs.map (condOutcome k f op (.str v)))) := by
   obtain ⟨cls, kvs, hpv, hl⟩ := sel2_getAt_snoc_key hget
   have hs := spellsF_merged p root _ hp hpv
   have hlen := mergedToks_length_le p
   obtain ⟨fuel', e', h1, h2, heq⟩ := find_walk root rl hs [name ++ bracket (k ++ opx ++ vq), f] (by simp) fuel [] slash true rfl
     (by omega)
-  have hx : x = findD fuel' root [] false e' [name ++ bracket (k ++ opx ++ vq), f] (.at p) rl ('/' :: renderPos p) := by
-    simpa [x, sel2_slash_render] using heq
-  refine ⟨fun hne => ?_, fun hempty => ?_⟩
-  · rw [hx, ← sel2Sel_fieldOf]
-    exact sel2_keycond_list root rl e' p name k opx op vq v cls kvs lc rs [f] (fieldOf f) 1 hp hname hk hop hlit hv hpv hl hrs hne
-      hg (by simp)
-      (fun j c kvs' hj fu hfu => sel2_field_cont root rl _ c kvs' f _ (sel2_getAt_snoc_idx hget hj) hf.keyTok fu hfu)
-      fuel' (by omega)
-  · subst hempty
-    obtain ⟨g, rfl⟩ : ∃ g, fuel' = g + 2 := ⟨fuel' - 2, by omega⟩
-    have hopc := opSpell_canon hop
-    rw [hx, find_keycond_step (g + 1) root e' rl p _ _ name k op (.str v) [f] cls kvs _ hpv
-      (split_cond name k opx op vq v (Or.inr hname) hk.cond hop hlit hv) hname.ne hname.notUp hname.keyTok.notStar hl]
-    exact find_cond_on_empty g root false rl _ _ _ k op (.str v) [f] lc hget (sel2_tok_reemit k op v hk hopc hv) hk.notText
+  rw [heq, ← sel2Sel_fieldOf]
+  simp only [List.nil_append, sel2_slash_render]
+  exact sel2_keycond_list root rl e' p name k opx op vq v cls kvs lc rs [f] (fieldOf f) 1 hp hname hk hop hlit hv hpv hl hrs
+    hg (by simp)
+    (fun j c kvs' hj fu hfu => sel2_field_cont root rl _ c kvs' f _ (sel2_getAt_snoc_idx hget hj) hf.keyTok fu hfu)
+    fuel' (by omega)
 
 /-- bracket form, `P` ending in an index, tree level -/
 theorem sel2_cond_find_idx (root : Val) (rl : Bool) (p : Pos) (k f opx op vq v : Str) (lc : Cls) (rs : List Val)
-    (hp : PlainPos p) (hpne : p ≠ []) (hk : FieldKey k) (hf : PlainKey f) (hop : OpSpell opx op)
+    (hp : PlainPos p) (hk : FieldKey k) (hf : PlainKey f) (hop : OpSpell opx op)
     (hlit : LitSpell vq v) (hv : PlainLit v)
     (hget : getAt root p = some (.list lc rs)) (hrs : ∀ r ∈ rs, isDict r = true)
     (hg : ∀ c kvs' kv, Val.dict c kvs' ∈ rs → lookup k kvs' = some kv → textGuard kv (.str v) = false)
     (fuel : Nat) (hfuel : fuel ≥ 4 * p.length + rs.length + 14) :
-    let x := findD fuel root [] false true (mergedToks p ++ [bracket (k ++ opx ++ vq), f]) (.at []) rl slash
-    (rs ≠ [] → Sel2Coll root rl x (somes (rs.map (condOutcome k f op (.str v))))) ∧ (rs = [] → x = .error .IndexError) := by
-  intro x
+    Sel2Coll root rl
+      (findD fuel root [] false true (mergedToks p ++ [bracket (k ++ opx ++ vq), f]) (.at []) rl slash)
+      (somes (rs.map (condOutcome k f op (.str v)))) := by
   have hs := spellsF_merged p root _ hp hget
   have hlen := mergedToks_length_le p
   obtain ⟨fuel', e', h1, h2, heq⟩ := find_walk root rl hs [bracket (k ++ opx ++ vq), f] (by simp) fuel [] slash true rfl
     (by omega)
-  have hx : x = findD fuel' root [] false e' [bracket (k ++ opx ++ vq), f] (.at p) rl ('/' :: renderPos p) := by
-    simpa [x, sel2_slash_render] using heq
   have hopc := opSpell_canon hop
   have hs1 : splitNameIndex (bracket (k ++ opx ++ vq)) = .ok ([], .cond k op (.str v)) := by
     simpa using split_cond [] k opx op vq v (Or.inl rfl) hk.cond hop hlit hv
-  refine ⟨fun hne => ?_, fun hempty => ?_⟩
-  · rw [hx, ← sel2Sel_fieldOf]
-    exact sel2_cond_list root rl e' p k op _ (.str v) lc rs [f] (fieldOf f) 1 hp hk.plain hk.notText hget hrs hne hs1
-      (sel2_tok_text_bare op v hopc hv) hopc hg (by simp)
-      (fun j c kvs' hj fu hfu => sel2_field_cont root rl _ c kvs' f _ (sel2_getAt_snoc_idx hget hj) hf.keyTok fu hfu)
-      fuel' (by omega)
-  · subst hempty
-    obtain ⟨g, rfl⟩ : ∃ g, fuel' = g + 1 := ⟨fuel' - 1, by omega⟩
-    rw [hx]
-    exact find_cond_on_empty g root e' rl _ _ _ k op (.str v) [f] lc hget hs1 hk.notText
+  rw [heq, ← sel2Sel_fieldOf]
+  simp only [List.nil_append, sel2_slash_render]
+  exact sel2_cond_list root rl e' p k op _ (.str v) lc rs [f] (fieldOf f) 1 hp hk.plain hk.notText hget hrs hs1
+    (sel2_tok_text_bare op v hopc hv) hopc hg (by simp)
+    (fun j c kvs' hj fu hfu => sel2_field_cont root rl _ c kvs' f _ (sel2_getAt_snoc_idx hget hj) hf.keyTok fu hfu)
+    fuel' (by omega)
 
 /-- text form, tree level -/
 theorem sel2_textform_find (root : Val) (rl : Bool) (p : Pos) (k f opx op vq v : Str) (lc : Cls) (rs : List Val)
@@ -977,59 +963,6 @@ theorem sel2_gBr_cond (k opx op vq v : Str) (hk : CondKey k) (hop : OpSpell opx 
     GBr (k ++ opx ++ vq) :=
   ⟨fun c hc => (cond_text_chars k opx op vq v hk hop hlit hv c hc).1, fun c hc => (cond_text_chars k opx op vq v hk hop hlit hv c hc).2⟩
 
-/-- API layer from `Sel2Coll` / `IndexError` -/
-theorem sel2_api (cls : Cls) (kvs : List (Str × Val)) (xp : Str) (toks : List Str) (vals : List Val) (d : Val) (fuel : Nat)
-    (hq : startsWith xp ['?'] = false) (hpc : hasPathChar xp = true) (htok : tokenize xp = toks)
-    (hfind : ∀ rl, Sel2Coll (.dict cls kvs) rl (findD fuel (.dict cls kvs) [] false true toks (.at []) rl slash) vals ∨
-      (vals = [] ∧ findD fuel (.dict cls kvs) [] false true toks (.at []) rl slash = .error .IndexError)) :
-    get fuel (.dict cls kvs) xp d = (.dict cls kvs, .ok (if vals.isEmpty then d else .list .n0 vals)) ∧
-    getItem fuel (.dict cls kvs) xp = (.dict cls kvs, if vals.isEmpty then .error .IndexError else .ok (.list .n0 vals)) ∧
-    first fuel (.dict cls kvs) xp d = (.dict cls kvs, .ok (firstOf vals d)) := by
-  by_cases hall : ∀ rl, Sel2Coll (.dict cls kvs) rl (findD fuel (.dict cls kvs) [] false true toks (.at []) rl slash) vals
-  · exact select_api cls kvs xp toks vals d fuel hq hpc htok hall
-  · have hv : vals = [] := by
-      apply Classical.byContradiction
-      intro hne
-      apply hall
-      intro rl
-      rcases hfind rl with h | ⟨h, _⟩
-      · exact h
-      · exact absurd h hne
-    subst hv
-    have herr : ∀ rl, findD fuel (.dict cls kvs) [] false true toks (.at []) rl slash = .error .IndexError ∨
-        Sel2Coll (.dict cls kvs) rl (findD fuel (.dict cls kvs) [] false true toks (.at []) rl slash) [] := by
-      intro rl
-      rcases hfind rl with h | ⟨_, h⟩
-      · exact Or.inr h
-      · exact Or.inl h
-    -- both outcomes are the same observable miss
-    have key : ∀ (raise rl : Bool), getCore fuel (.dict cls kvs) xp d raise rl
-        = (.dict cls kvs, if raise then .error .IndexError else .ok d) := by
-      intro raise rl
-      rcases herr rl with h | ⟨r, hr, hf, _⟩
-      · exact getCore_of_find_err cls kvs xp toks d raise rl fuel hq hpc htok h
-      · rw [getCore_of_find cls kvs xp toks d raise rl fuel r hq hpc htok hr]
-        have : r.isFound = false := by simpa using hf
-        simp [this]
-    have key0 : ∀ (rl : Bool), getCore fuel (.dict cls kvs) xp Val.none true rl = (.dict cls kvs, .error .IndexError) := by
-      intro rl
-      rcases herr rl with h | ⟨r, hr, hf, _⟩
-      · simpa using getCore_of_find_err cls kvs xp toks Val.none true rl fuel hq hpc htok h
-      · rw [getCore_of_find cls kvs xp toks Val.none true rl fuel r hq hpc htok hr]
-        have : r.isFound = false := by simpa using hf
-        simp [this]
-    refine ⟨?_, ?_, ?_⟩
-    · rw [get, key false true]; rfl
-    · rw [getItem, key0 true]; rfl
-    · rw [first, key false false]
-      simp only [Bool.false_eq_true, if_false, firstOf]
-      cases d with
-      | list c xs =>
-        cases xs with
-        | nil => rfl
-        | cons x xs => cases xs <;> rfl
-      | _ => rfl
-
 /-- **`P[k op v]/f` for the record list at any position** -/
 theorem sel2_cond_api (cls : Cls) (kvs : List (Str × Val)) (p : Pos) (k f opx op vq v : Str) (lc : Cls) (rs : List Val) (d : Val)
     (hp : PlainPos p) (hne : p ≠ []) (hk : FieldKey k) (hf : PlainKey f) (hop : OpSpell opx op) (hlit : LitSpell vq v)
@@ -1050,7 +983,6 @@ theorem sel2_cond_api (cls : Cls) (kvs : List (Str × Val)) (p : Pos) (k f opx o
   have htok0 : tokenize xp = sel2Toks (sel2Embed p ++ [.br (k ++ opx ++ vq), .key f]) := by rw [hxp]; exact sel2_tokenize _ hgood
   have hq : startsWith xp ['?'] = false := by rw [hxp]; exact sel2_noQ_cons _
   have hpc : hasPathChar xp = true := by rw [hxp]; exact sel2_hasPathChar_cons _
-  have hempty : rs = [] → vals = [] := by intro h; simp [vals, h, somes]
   obtain ⟨p', s, rfl⟩ : ∃ p' s, p = p' ++ [s] := ⟨p.dropLast, p.getLast hne, (List.dropLast_concat_getLast hne).symm⟩
   obtain ⟨hp', hs⟩ := sel2_plainPos_append hp
   cases s with
@@ -1061,25 +993,19 @@ theorem sel2_cond_api (cls : Cls) (kvs : List (Str × Val)) (p : Pos) (k f opx o
       simp only [sel2Embed, List.append_assoc, List.cons_append, List.nil_append]
       rw [sel2_toks_append_key_br, sel2_toks_embed]
       simp [sel2Toks]
-    apply sel2_api cls kvs xp _ vals d fuel hq hpc htok
+    apply select_api cls kvs xp _ vals d fuel hq hpc htok
     intro rl
-    have := sel2_cond_find_key (.dict cls kvs) rl p' name k f opx op vq v lc rs hp' hname hk hf hop hlit hv hget hrs hg fuel
+    exact sel2_cond_find_key (.dict cls kvs) rl p' name k f opx op vq v lc rs hp' hname hk hf hop hlit hv hget hrs hg fuel
       (by simp at hfuel; omega)
-    by_cases hr : rs = []
-    · exact Or.inr ⟨hempty hr, this.2 hr⟩
-    · exact Or.inl (this.1 hr)
   | idx n =>
     have htok : tokenize xp = mergedToks (p' ++ [.idx n]) ++ [bracket (k ++ opx ++ vq), f] := by
       rw [htok0, sel2_embed_append]
       simp only [sel2Embed, List.append_assoc, List.cons_append, List.nil_append]
       rw [sel2_toks_append_br_br, ← sel2_toks_embed, sel2_embed_append]
       simp [sel2Toks, sel2Embed]
-    apply sel2_api cls kvs xp _ vals d fuel hq hpc htok
+    apply select_api cls kvs xp _ vals d fuel hq hpc htok
     intro rl
-    have := sel2_cond_find_idx (.dict cls kvs) rl (p' ++ [.idx n]) k f opx op vq v lc rs hp hne hk hf hop hlit hv hget hrs hg fuel hfuel
-    by_cases hr : rs = []
-    · exact Or.inr ⟨hempty hr, this.2 hr⟩
-    · exact Or.inl (this.1 hr)
+    exact sel2_cond_find_idx (.dict cls kvs) rl (p' ++ [.idx n]) k f opx op vq v lc rs hp hk hf hop hlit hv hget hrs hg fuel hfuel
 
 /-- **`P/k[text() op v]/../f` for the record list at any position** -/
 theorem sel2_textform_api (cls : Cls) (kvs : List (Str × Val)) (p : Pos) (k f opx op vq v : Str) (lc : Cls) (rs : List Val) (d : Val)
@@ -1105,5 +1031,205 @@ theorem sel2_textform_api (cls : Cls) (kvs : List (Str × Val)) (p : Pos) (k f o
   apply select_api cls kvs xp _ vals d fuel (by rw [hxp]; exact sel2_noQ_cons _) (by rw [hxp]; exact sel2_hasPathChar_cons _) htok
   intro rl
   exact sel2_textform_find (.dict cls kvs) rl p k f opx op vq v lc rs hp hk hf hop hlit hv hget hrs hg fuel hfuel
+
+/-! ### chained selections: a predicate below a predicate (fix C06-b) -/
+
+/-- what the steps `items[k2 op v2]`, `f` yield in an outer record: the collected inner selection, when the
+record has `items`, it is a list and something is selected in it -/
+def sel2Inner (items k2 f op2 : Str) (v2 : CondVal) (rl : Bool) (rec : Val) : Option Val :=
+  match rec with
+  | .dict _ kvs' =>
+    match lookup items kvs' with
+    | some (.list _ xs) =>
+      if (somes (xs.map (condOutcome k2 f op2 v2))).isEmpty then Option.none
+      else some (collect rl (somes (xs.map (condOutcome k2 f op2 v2))))
+    | _ => Option.none
+  | _ => Option.none
+
+/-- length of the inner list of an outer record (fuel bound) -/
+def sel2InnerLen (items : Str) (rec : Val) : Nat :=
+  match rec with
+  | .dict _ kvs' => (match lookup items kvs' with | some (.list _ xs) => xs.length | _ => 0)
+  | _ => 0
+
+theorem sel2_le_sum (g : Val → Nat) : ∀ (rs : List Val) (j : Nat) (rec : Val), rs[j]? = some rec → g rec ≤ (rs.map g).sum
+  | [], j, rec, h => by simp at h
+  | r :: rs, 0, rec, h => by simp at h; subst h; simp
+  | r :: rs, j + 1, rec, h => by
+    have := sel2_le_sum g rs j rec (by simpa using h)
+    simp; omega
+
+/-- the inner lists of the outer records: `items`, when present, is a list of dict records whose `k2` values
+are comparable with the literal -/
+def Sel2InnerOK (items k2 : Str) (v2 : CondVal) (rs : List Val) : Prop :=
+  ∀ c kvs' x, Val.dict c kvs' ∈ rs → lookup items kvs' = some x →
+    ∃ lc xs, x = .list lc xs ∧ (∀ y ∈ xs, isDict y = true) ∧
+      ∀ c2 kvs2 kv, Val.dict c2 kvs2 ∈ xs → lookup k2 kvs2 = some kv → textGuard kv v2 = false
+
+/-- the steps `items[k2 op v2]`, `f` in the outer record at `pos` -/
+theorem sel2_inner_cont (root : Val) (rl : Bool) (pos : Pos) (c : Cls) (kvs' : List (Str × Val)) (items k2 f opx2 op2 vq2 v2 : Str)
+    (M : Nat) (hpos : PlainPos pos) (hitems : PlainKey items) (hk2 : FieldKey k2) (hf : PlainKey f) (hop2 : OpSpell opx2 op2)
+    (hlit2 : LitSpell vq2 v2) (hv2 : PlainLit v2)
+    (hq : getAt root pos = some (.dict c kvs'))
+    (hok : ∀ x, lookup items kvs' = some x → ∃ lc xs, x = .list lc xs ∧ (∀ y ∈ xs, isDict y = true) ∧
+      ∀ c2 kvs2 kv, Val.dict c2 kvs2 ∈ xs → lookup k2 kvs2 = some kv → textGuard kv (.str v2) = false)
+    (hM : sel2InnerLen items (.dict c kvs') ≤ M)
+    (fu : Nat) (hfu : fu ≥ 2 * pos.length + M + 13) :
+    Sel2Out root
+      (findD fu root [] false false [items ++ bracket (k2 ++ opx2 ++ vq2), f] (.at pos) rl ('/' :: renderPos pos))
+      (sel2Inner items k2 f op2 (.str v2) rl (.dict c kvs')) := by
+  cases hl : lookup items kvs' with
+  | none =>
+    obtain ⟨g, rfl⟩ : ∃ g, fu = g + 1 := ⟨fu - 1, by omega⟩
+    rw [find_keycond_missing g root false rl _ _ _ items _ [f] c kvs' hq
+      (split_cond items k2 opx2 op2 vq2 v2 (Or.inr hitems) hk2.cond hop2 hlit2 hv2) hitems.ne hitems.notUp hitems.keyTok.notStar hl]
+    simpa [sel2Inner, hl] using sel2Out_notFound root _ _ _ _ _ (by simp)
+  | some x =>
+    obtain ⟨lc, xs, rfl, hds, hg⟩ := hok x hl
+    have hlen : xs.length ≤ M := by simpa [sel2InnerLen, hl] using hM
+    have hget2 : getAt root (pos ++ [.key items]) = some (.list lc xs) := by rw [getAt_snoc, hq]; simp [child, hl]
+    have := (sel2_keycond_list root rl false pos items k2 opx2 op2 vq2 v2 c kvs' lc xs [f] (fieldOf f) 1 hpos hitems hk2 hop2 hlit2
+      hv2 hq hl hds hg (by simp)
+      (fun j c2 kvs2 hj fu' hfu' => sel2_field_cont root rl _ c2 kvs2 f _ (sel2_getAt_snoc_idx hget2 hj) hf.keyTok fu' hfu')
+      fu (by omega)).out
+    rw [sel2Sel_fieldOf] at this
+    simpa [sel2Inner, hl] using this
+
+/-- the selection of a chained lookup (for `return_lists` = `rl`) -/
+def sel2Chained (k1 op1 : Str) (v1 : CondVal) (items k2 f op2 : Str) (v2 : CondVal) (rl : Bool) (rs : List Val) : List Val :=
+  sel2Sel k1 op1 v1 (sel2Inner items k2 f op2 v2 rl) rs
+
+/-- chained selection, `P` ending in a key, tree level -/
+theorem sel2_chained_find_key (root : Val) (rl : Bool) (p : Pos) (name k1 opx1 op1 vq1 v1 items k2 opx2 op2 vq2 v2 f : Str)
+    (lc : Cls) (rs : List Val)
+    (hp : PlainPos p) (hname : PlainKey name) (hk1 : FieldKey k1) (hop1 : OpSpell opx1 op1) (hlit1 : LitSpell vq1 v1)
+    (hv1 : PlainLit v1) (hitems : PlainKey items) (hk2 : FieldKey k2) (hop2 : OpSpell opx2 op2) (hlit2 : LitSpell vq2 v2)
+    (hv2 : PlainLit v2) (hf : PlainKey f)
+    (hget : getAt root (p ++ [.key name]) = some (.list lc rs)) (hrs : ∀ r ∈ rs, isDict r = true)
+    (hg : ∀ c kvs' kv, Val.dict c kvs' ∈ rs → lookup k1 kvs' = some kv → textGuard kv (.str v1) = false)
+    (hin : Sel2InnerOK items k2 (.str v2) rs)
+    (fuel : Nat) (hfuel : fuel ≥ 6 * p.length + rs.length + (rs.map (sel2InnerLen items)).sum + 32) :
+    Sel2Coll root rl
+      (findD fuel root [] false true
+        (mergedToks p ++ [name ++ bracket (k1 ++ opx1 ++ vq1), items ++ bracket (k2 ++ opx2 ++ vq2), f]) (.at []) rl slash)
+      (sel2Chained k1 op1 (.str v1) items k2 f op2 (.str v2) rl rs) := by
+  obtain ⟨cls, kvs, hpv, hl⟩ := sel2_getAt_snoc_key hget
+  have hs := spellsF_merged p root _ hp hpv
+  have hlen := mergedToks_length_le p
+  obtain ⟨fuel', e', h1, h2, heq⟩ := find_walk root rl hs
+    [name ++ bracket (k1 ++ opx1 ++ vq1), items ++ bracket (k2 ++ opx2 ++ vq2), f] (by simp) fuel [] slash true rfl (by omega)
+  have hp1 : PlainPos (p ++ [.key name]) := sel2_plainPos_of hp (by exact (⟨hname, trivial⟩ : PlainPos [.key name]))
+  rw [heq]
+  simp only [List.nil_append, sel2_slash_render]
+  exact sel2_keycond_list root rl e' p name k1 opx1 op1 vq1 v1 cls kvs lc rs _ _
+    (2 * (p.length + 2) + (rs.map (sel2InnerLen items)).sum + 13) hp hname hk1 hop1 hlit1 hv1 hpv hl hrs hg (by simp)
+    (fun j c kvs' hj fu hfu =>
+      sel2_inner_cont root rl _ c kvs' items k2 f opx2 op2 vq2 v2 _
+        (sel2_plainPos_of hp1 (by exact (trivial : PlainPos [.idx j]))) hitems hk2 hf hop2 hlit2 hv2
+        (sel2_getAt_snoc_idx hget hj) (fun x hx => hin c kvs' x (List.mem_of_getElem? hj) hx)
+        (sel2_le_sum (sel2InnerLen items) rs j _ hj) fu (by simp at hfu ⊢; omega))
+    fuel' (by omega)
+
+/-- chained selection, `P` ending in an index, tree level -/
+theorem sel2_chained_find_idx (root : Val) (rl : Bool) (p : Pos) (k1 opx1 op1 vq1 v1 items k2 opx2 op2 vq2 v2 f : Str)
+    (lc : Cls) (rs : List Val)
+    (hp : PlainPos p) (hk1 : FieldKey k1) (hop1 : OpSpell opx1 op1) (hlit1 : LitSpell vq1 v1)
+    (hv1 : PlainLit v1) (hitems : PlainKey items) (hk2 : FieldKey k2) (hop2 : OpSpell opx2 op2) (hlit2 : LitSpell vq2 v2)
+    (hv2 : PlainLit v2) (hf : PlainKey f)
+    (hget : getAt root p = some (.list lc rs)) (hrs : ∀ r ∈ rs, isDict r = true)
+    (hg : ∀ c kvs' kv, Val.dict c kvs' ∈ rs → lookup k1 kvs' = some kv → textGuard kv (.str v1) = false)
+    (hin : Sel2InnerOK items k2 (.str v2) rs)
+    (fuel : Nat) (hfuel : fuel ≥ 6 * p.length + rs.length + (rs.map (sel2InnerLen items)).sum + 32) :
+    Sel2Coll root rl
+      (findD fuel root [] false true
+        (mergedToks p ++ [bracket (k1 ++ opx1 ++ vq1), items ++ bracket (k2 ++ opx2 ++ vq2), f]) (.at []) rl slash)
+      (sel2Chained k1 op1 (.str v1) items k2 f op2 (.str v2) rl rs) := by
+  have hs := spellsF_merged p root _ hp hget
+  have hlen := mergedToks_length_le p
+  obtain ⟨fuel', e', h1, h2, heq⟩ := find_walk root rl hs
+    [bracket (k1 ++ opx1 ++ vq1), items ++ bracket (k2 ++ opx2 ++ vq2), f] (by simp) fuel [] slash true rfl (by omega)
+  have hopc := opSpell_canon hop1
+  have hs1 : splitNameIndex (bracket (k1 ++ opx1 ++ vq1)) = .ok ([], .cond k1 op1 (.str v1)) := by
+    simpa using split_cond [] k1 opx1 op1 vq1 v1 (Or.inl rfl) hk1.cond hop1 hlit1 hv1
+  rw [heq]
+  simp only [List.nil_append, sel2_slash_render]
+  exact sel2_cond_list root rl e' p k1 op1 _ (.str v1) lc rs _ _
+    (2 * (p.length + 1) + (rs.map (sel2InnerLen items)).sum + 13) hp hk1.plain hk1.notText hget hrs hs1
+    (sel2_tok_text_bare op1 v1 hopc hv1) hopc hg (by simp)
+    (fun j c kvs' hj fu hfu =>
+      sel2_inner_cont root rl _ c kvs' items k2 f opx2 op2 vq2 v2 _
+        (sel2_plainPos_of hp (by exact (trivial : PlainPos [.idx j]))) hitems hk2 hf hop2 hlit2 hv2
+        (sel2_getAt_snoc_idx hget hj) (fun x hx => hin c kvs' x (List.mem_of_getElem? hj) hx)
+        (sel2_le_sum (sel2InnerLen items) rs j _ hj) fu (by simp at hfu ⊢; omega))
+    fuel' (by omega)
+
+/-- `get` / item access from a `return_lists = True` selection -/
+theorem sel2_api_get (cls : Cls) (kvs : List (Str × Val)) (xp : Str) (toks : List Str) (vals : List Val) (d : Val) (fuel : Nat)
+    (hq : startsWith xp ['?'] = false) (hpc : hasPathChar xp = true) (htok : tokenize xp = toks)
+    (hfind : Sel2Coll (.dict cls kvs) true (findD fuel (.dict cls kvs) [] false true toks (.at []) true slash) vals) :
+    get fuel (.dict cls kvs) xp d = (.dict cls kvs, .ok (if vals.isEmpty then d else .list .n0 vals)) ∧
+    getItem fuel (.dict cls kvs) xp = (.dict cls kvs, if vals.isEmpty then .error .IndexError else .ok (.list .n0 vals)) := by
+  have key : ∀ (raise : Bool) (d : Val), getCore fuel (.dict cls kvs) xp d raise true
+      = (.dict cls kvs, if vals.isEmpty then (if raise then .error .IndexError else .ok d) else .ok (.list .n0 vals)) := by
+    intro raise d
+    obtain ⟨r, hr, hf, hval⟩ := hfind
+    rw [getCore_of_find cls kvs xp toks d raise true fuel r hq hpc htok hr]
+    cases he : vals.isEmpty with
+    | true => simp [hf, he]
+    | false =>
+      have : r.isFound = true := by simp [hf, he]
+      simp [this, hval this, collect]
+  refine ⟨?_, ?_⟩
+  · rw [get, key false d]; cases vals.isEmpty <;> simp
+  · rw [getItem, key true Val.none]; cases vals.isEmpty <;> simp
+
+/-- **Chained selection `P[k1 op v1]/items[k2 op v2]/f`** for the record list at any position, through `get`
+and item access -/
+theorem sel2_chained_api (cls : Cls) (kvs : List (Str × Val)) (p : Pos)
+    (k1 opx1 op1 vq1 v1 items k2 opx2 op2 vq2 v2 f : Str) (lc : Cls) (rs : List Val) (d : Val)
+    (hp : PlainPos p) (hne : p ≠ []) (hk1 : FieldKey k1) (hop1 : OpSpell opx1 op1) (hlit1 : LitSpell vq1 v1)
+    (hv1 : PlainLit v1) (hitems : PlainKey items) (hk2 : FieldKey k2) (hop2 : OpSpell opx2 op2) (hlit2 : LitSpell vq2 v2)
+    (hv2 : PlainLit v2) (hf : PlainKey f)
+    (hget : getAt (.dict cls kvs) p = some (.list lc rs)) (hrs : ∀ r ∈ rs, isDict r = true)
+    (hg : ∀ c kvs' kv, Val.dict c kvs' ∈ rs → lookup k1 kvs' = some kv → textGuard kv (.str v1) = false)
+    (hin : Sel2InnerOK items k2 (.str v2) rs)
+    (fuel : Nat) (hfuel : fuel ≥ 6 * p.length + rs.length + (rs.map (sel2InnerLen items)).sum + 32) :
+    let xp := slash ++ renderPos p ++ bracket (k1 ++ opx1 ++ vq1) ++ slash ++ items ++ bracket (k2 ++ opx2 ++ vq2) ++ slash ++ f
+    let vals := sel2Chained k1 op1 (.str v1) items k2 f op2 (.str v2) true rs
+    get fuel (.dict cls kvs) xp d = (.dict cls kvs, .ok (if vals.isEmpty then d else .list .n0 vals)) ∧
+    getItem fuel (.dict cls kvs) xp = (.dict cls kvs, if vals.isEmpty then .error .IndexError else .ok (.list .n0 vals)) := by
+  intro xp vals
+  have hxp : xp = '/' :: sel2Render (sel2Embed p ++ [.br (k1 ++ opx1 ++ vq1), .key items, .br (k2 ++ opx2 ++ vq2), .key f]) := by
+    rw [sel2_render_append, sel2_render_embed]
+    simp [xp, sel2Render, sel2RenderSeg, slash]
+  have hgood : GoodG (sel2Embed p ++ [.br (k1 ++ opx1 ++ vq1), .key items, .br (k2 ++ opx2 ++ vq2), .key f]) :=
+    (sel2_good_embed p hp).append ⟨sel2_gBr_cond k1 opx1 op1 vq1 v1 hk1.cond hop1 hlit1 hv1, hitems.gKey,
+      sel2_gBr_cond k2 opx2 op2 vq2 v2 hk2.cond hop2 hlit2 hv2, hf.gKey, trivial⟩
+  have htok0 := sel2_tokenize _ hgood
+  rw [← hxp] at htok0
+  have hq : startsWith xp ['?'] = false := by rw [hxp]; exact sel2_noQ_cons _
+  have hpc : hasPathChar xp = true := by rw [hxp]; exact sel2_hasPathChar_cons _
+  obtain ⟨p', s, rfl⟩ : ∃ p' s, p = p' ++ [s] := ⟨p.dropLast, p.getLast hne, (List.dropLast_concat_getLast hne).symm⟩
+  obtain ⟨hp', hs⟩ := sel2_plainPos_append hp
+  cases s with
+  | key name =>
+    have hname : PlainKey name := hs.1
+    have htok : tokenize xp = mergedToks p' ++ [name ++ bracket (k1 ++ opx1 ++ vq1), items ++ bracket (k2 ++ opx2 ++ vq2), f] := by
+      rw [htok0, sel2_embed_append]
+      simp only [sel2Embed, List.append_assoc, List.cons_append, List.nil_append]
+      rw [sel2_toks_append_key_br, sel2_toks_embed]
+      simp [sel2Toks]
+    apply sel2_api_get cls kvs xp _ vals d fuel hq hpc htok
+    exact sel2_chained_find_key (.dict cls kvs) true p' name k1 opx1 op1 vq1 v1 items k2 opx2 op2 vq2 v2 f lc rs hp' hname hk1 hop1
+      hlit1 hv1 hitems hk2 hop2 hlit2 hv2 hf hget hrs hg hin fuel (by simp at hfuel; omega)
+  | idx n =>
+    have htok : tokenize xp = mergedToks (p' ++ [.idx n]) ++ [bracket (k1 ++ opx1 ++ vq1), items ++ bracket (k2 ++ opx2 ++ vq2), f] := by
+      rw [htok0, sel2_embed_append]
+      simp only [sel2Embed, List.append_assoc, List.cons_append, List.nil_append]
+      rw [sel2_toks_append_br_br, ← sel2_toks_embed, sel2_embed_append]
+      simp [sel2Toks, sel2Embed]
+    apply sel2_api_get cls kvs xp _ vals d fuel hq hpc htok
+    exact sel2_chained_find_idx (.dict cls kvs) true (p' ++ [.idx n]) k1 opx1 op1 vq1 v1 items k2 opx2 op2 vq2 v2 f lc rs hp hk1 hop1
+      hlit1 hv1 hitems hk2 hop2 hlit2 hv2 hf hget hrs hg hin fuel hfuel
 
 end N0.XPath
